@@ -80,6 +80,7 @@ func cmdCheck(args []string) (status int) {
 	noEv := fs.Bool("no-evidence", false, "do not write evidence")
 	mutant := fs.String("mutant", "", "self-test: apply overlay mutant by name (no evidence written)")
 	arch := fs.String("arch", "", "GOARCH override")
+	patch := fs.String("patch", "", "self-test: apply a unified diff in memory (no evidence written)")
 	fs.Parse(args[1:])
 	if *tier != "quick" && *tier != "thorough" {
 		*tier = "quick"
@@ -100,6 +101,16 @@ func cmdCheck(args []string) (status int) {
 			return 3
 		}
 		*noEv = true
+	}
+	if *patch != "" {
+		var err error
+		overlay, err = patchOverlay(*patch)
+		if err != nil {
+			fmt.Fprintln(os.Stderr, "patch:", err)
+			return 3
+		}
+		*noEv = true
+		*mutant = "patch:" + *patch
 	}
 	w, err := LoadWorld(*arch, overlay)
 	if err != nil {
